@@ -299,6 +299,38 @@ Section Chained.
         end
     | _, _ => None
     end.
+  (* --- code variant of model.py:_transform_back -------------------------------------------- *)
+  (* Proxy   (repaired, commit b548a17): Calc(fn, var_transformed, ...) - the original variable reads
+             the new VARIABLE (its VarValue proxy), which follows a later replacement of the value node;
+     RawNode (as found): Calc(fn, var_transformed.value_node, ...) - it reads the Value node the new
+             variable had at that moment.  When the new variable is transformed again its value node
+             is replaced by a Calc; the old Value node is orphaned and keeps the value the variable had
+             then (its initial value, computed from the inputs p0 / args0 / v0 at transform time). *)
+  Inductive binding := Proxy | RawNode.
+
+  (* chain_up with the variant: `newest` says whether the head link's new variable is the one being
+     assigned (its value node was never replaced) *)
+  Fixpoint chain_up_v (bd : binding) (newest : bool) (ls : list link) (p0 : P) (args0 : list A) (v0 : R)
+      (p : P) (args : list A) (t : R) : option (list R) :=
+    match ls, args, args0 with
+    | [], [], [] => Some []
+    | l :: older, a :: args', a0 :: args0' =>
+        let tin :=
+          if newest then Some t
+          else match bd, l_path l with
+               | RawNode, PDeprecated => chain_init (l :: older) p0 (a0 :: args0') v0   (* frozen *)
+               | _, _ => Some t
+               end in
+        match tin, chain_dist older p args' with
+        | Some ti, Some d =>
+            match r_value (transform_by (l_path l) (fun _ : unit => d) (l_spec l) tt a 0) tt a ti with
+            | Some v => option_map (cons v) (chain_up_v bd false older p0 args0' v0 p args' v)
+            | None => None
+            end
+        | _, _ => None
+        end
+    | _, _, _ => None
+    end.
 End Chained.
 Arguments mkLink {A}.
 Arguments l_path {A}.
